@@ -26,7 +26,7 @@ func TestMain(m *testing.M) { vh.Main(m) }
 type verdict struct{ sig, msg string }
 
 type mop struct {
-	Op    string     `json:"op"` // cmd, burst, begin, move, finalise, abort, failover, settle
+	Op    string     `json:"op"` // cmd, burst, begin, move, finalise, abort, failover, bounce
 	Cmd   [][]byte   `json:"cmd,omitempty"`
 	Burst [][][]byte `json:"burst,omitempty"` // pipelined on the main connection
 	Bg    int        `json:"bg,omitempty"`    // background requests on a second connection during the burst
@@ -50,6 +50,7 @@ const replyTimeout = 20 * time.Second
 type migInfo struct {
 	redirectedWhileHalf int
 	failovers           int
+	bounces             int
 }
 
 func hasRedirectText(v ref.Value) bool {
@@ -211,6 +212,14 @@ func checkMig(c migCase) (inf migInfo, v *verdict) {
 			w.Finalise(ref.Slot([]byte(tags[o.Tag%len(tags)])))
 		case "abort":
 			w.Abort(ref.Slot([]byte(tags[o.Tag%len(tags)])))
+		case "bounce":
+			// a master loses its connections (crash and restart at the same address with its data, or a network reset):
+			// after the reconnect allowance its keys are reachable again and must be answered like before
+			ms := w.Masters()
+			if w.Nodes[ms[o.Node%len(ms)]].DropConns(o.N == 1) > 0 {
+				inf.bounces++
+				time.Sleep(250 * time.Millisecond)
+			}
 		case "failover":
 			ms := w.Masters()
 			m := ms[o.Node%len(ms)]
@@ -347,7 +356,9 @@ func genMig(t *rapid.T) migCase {
 		c.Ops = append(c.Ops, mop{Op: "cmd", Cmd: [][]byte{[]byte("SET"), []byte(tags[i%len(tags)] + "k" + strconv.Itoa(i)), []byte("init" + strconv.Itoa(i))}})
 	}
 	for i := 0; i < n; i++ {
-		switch x := rapid.IntRange(0, 19).Draw(t, "op"); {
+		switch x := rapid.IntRange(0, 20).Draw(t, "op"); {
+		case x == 20:
+			c.Ops = append(c.Ops, mop{Op: "bounce", Node: rapid.IntRange(0, 3).Draw(t, "bnode"), N: rapid.IntRange(0, 1).Draw(t, "brst")})
 		case x <= 7:
 			c.Ops = append(c.Ops, mop{Op: "cmd", Cmd: genCmdC(t, &seq, c.Compress)})
 		case x <= 10:
@@ -439,6 +450,9 @@ func TestMigration(t *testing.T) {
 		vh.Rec().Case("migration", nt, vh.JSON(c))
 		if inf.redirectedWhileHalf > 0 {
 			vh.Rec().Class("migration", "redirected_while_slot_half_migrated")
+		}
+		if inf.bounces > 0 {
+			vh.Rec().Class("migration", "connections_lost_then_traffic")
 		}
 		if inf.failovers > 0 {
 			vh.Rec().Class("migration", "failover")
